@@ -112,6 +112,7 @@ Definition ev_src (x : addsrc) (e : est) : option Z :=
   | AInt z => Some z
   | AFut a ix => ev_entry a ix e
   | ALoop v => alookup v (e_lv e)
+  | AReg r => alookup r (e_reg e)
   end.
 
 Definition ev_sum (v w : Z) (m : option Z) : option Z :=
